@@ -5,6 +5,14 @@ import RbV.Lemmas.NWIdentity
 import RbV.Lemmas.PoaChain
 import RbV.Lemmas.PoaGrow
 import RbV.Lemmas.PoaAcyclic
+import RbV.Lemmas.PoaHistory
+import RbV.Lemmas.PoaBound
+import RbV.Lemmas.PoaConsensus
+import RbV.Lemmas.PoaBandedFull
+import RbV.Lemmas.PoaModes
+import RbV.Lemmas.PoaGrowAll
+import RbV.Lemmas.PoaChainLink
+import RbV.Lemmas.PoaCustomGlobal
 /-!
 # C16 — partial-order alignment: exact on linear graphs, graph stays a growing DAG
 
@@ -129,22 +137,223 @@ theorem model_identity_readdition_keeps_nodes (x : List Nat) (es : Poa.Model.WEd
     (Poa.Model.addAlignment { labels := x, es := es } (Poa.Model.idOps x.length) x).labels = x :=
   Poa.Model.addAlignment_identity_labels x es hhead
 
-/-- **partial** (DESIGN [C]).  Full statement wanted: for every acyclic graph `g` and every operation list
-`ops` produced by the model's traceback on `g`, `addAlignment g ops seq` is acyclic.
-Proved: the conclusion for every operation list that *names nodes in increasing rank* (`bodyB`: each
-`Match(Some((_, p)))` lies above the rank bound of `prev`, with room for the nodes created in between; the
-inserted prefix `Ins(None)…` stays below the head) where `rk` is any rank function increasing along the old
-edges — `Ins(None)`, `Match(None)`, mismatches, clips, skipped nodes all covered.
-Missing: that `traceLoop` emits only such lists (it moves along edges, so the named nodes come in topological
-order).  In its place the driver evaluates the hypothesis on every observed list (`acyclicCert`, tag
-`acyclic-cert`), and the model's result is compared with the real dump (`drift-add`). -/
-theorem model_add_preserves_acyclic_partial (g : Poa.Model.G) (rk : Nat → Nat) (ops : List POp) (seq : List Nat)
+/-- **the model's align-and-add keeps the graph a DAG** (DESIGN [C], full statement for `global`): for every
+graph with at least one node, end points in range and no directed cycle, every scoring and every query, the
+graph after `global(q)` + `add_to_graph()` of the model again has at least one node, end points in range and
+no directed cycle.  Proof: `topo` visits every node of a DAG after its predecessors (`topo_spec`), every cell
+of the DP table points to the same row, to the row of a predecessor, to row 0 or down the first column
+(`dpRows_tableOK`), so the traceback names nodes in strictly increasing topological rank (`traceLoop_bodyB`),
+and `add_alignment` along such a list has a rank function again (`addAlignment_rankOK`). -/
+theorem model_align_add_preserves_acyclic (sc : Sc) (g : Poa.Model.G) (q : List Nat)
+    (hne : g.labels ≠ [])
+    (hwf : ∀ e ∈ g.es, e.1 < g.labels.length ∧ e.2.1 < g.labels.length)
+    (hac : ∀ v, ¬ Reach (plain g.es) v v) :
+    (Poa.Model.alignAdd sc g q).labels ≠ [] ∧
+    (∀ e ∈ (Poa.Model.alignAdd sc g q).es,
+      e.1 < (Poa.Model.alignAdd sc g q).labels.length ∧ e.2.1 < (Poa.Model.alignAdd sc g q).labels.length) ∧
+    ∀ v, ¬ Reach (plain (Poa.Model.alignAdd sc g q).es) v v :=
+  let h := Poa.Model.alignAdd_dag sc g q ⟨hne, hwf, hac⟩
+  ⟨h.ne, h.wf, h.acyclic⟩
+
+/-- the same for the traceback started in *any* cell with *any* fuel (so the statement does not depend on the
+loop bound of the model, nor on which row `last` is) -/
+theorem model_traceback_add_preserves_acyclic (sc : Sc) (g : Poa.Model.G) (q : List Nat) (f i j : Nat)
+    (hne : g.labels ≠ [])
+    (hwf : ∀ e ∈ g.es, e.1 < g.labels.length ∧ e.2.1 < g.labels.length)
+    (hac : ∀ v, ¬ Reach (plain g.es) v v) :
+    ∀ v, ¬ Reach (plain (Poa.Model.addAlignment g
+      (Poa.Model.traceLoop (Poa.Model.dpRows sc g.labels g.es q) f i j []) q).es) v v :=
+  (Poa.Model.traceback_add_dag sc g q ⟨hne, hwf, hac⟩ f i j).acyclic
+
+/-- **"after any series of additions"**, for the model, unconditionally: start from the chain built from a
+non-empty reference `x` (`Poa::from_string`) and apply any number of align-and-add steps, each with its own
+scoring and query — the graph has its edge end points in range and no directed cycle. -/
+theorem model_history_acyclic (x : List Nat) (hx : x ≠ []) (steps : List (Sc × List Nat)) :
+    (∀ e ∈ (Poa.Model.history x steps).es,
+      e.1 < (Poa.Model.history x steps).labels.length ∧ e.2.1 < (Poa.Model.history x steps).labels.length) ∧
+    ∀ v, ¬ Reach (plain (Poa.Model.history x steps).es) v v :=
+  let h := Poa.Model.history_dag x hx steps
+  ⟨h.wf, h.acyclic⟩
+
+/-- **"the graph only grows", along histories**: between any two points of any history of the model the
+labels of the existing nodes are kept, every edge stays and no total edge weight decreases
+(`model_add_only_grows` composed over the steps). -/
+theorem model_history_only_grows (x : List Nat) (steps more : List (Sc × List Nat)) :
+    Extends (Poa.Model.history x steps).labels (Poa.Model.history x steps).es
+      (Poa.Model.history x (steps ++ more)).labels (Poa.Model.history x (steps ++ more)).es :=
+  (Poa.Model.history_grows x steps more).extends
+
+/-- **node growth ≤ |query| per addition**, for the model's own alignment: the traceback on a DAG emits at most
+`|q|` operations that consume a query symbol (each moves one column to the left; column 0 of a computed row
+holds `Del(None)`; every row is computed because `topo` visits every node), and `add_alignment` creates at
+most one node per such operation. -/
+theorem model_align_add_node_growth (sc : Sc) (g : Poa.Model.G) (q : List Nat)
+    (hne : g.labels ≠ [])
+    (hwf : ∀ e ∈ g.es, e.1 < g.labels.length ∧ e.2.1 < g.labels.length)
+    (hac : ∀ v, ¬ Reach (plain g.es) v v) :
+    (Poa.Model.alignAdd sc g q).labels.length ≤ g.labels.length + q.length :=
+  Poa.Model.alignAdd_node_growth sc g q ⟨hne, hwf, hac⟩
+
+/-- … hence after any history the node count is at most `|x|` plus the total length of the queries -/
+theorem model_history_node_count (x : List Nat) (hx : x ≠ []) (steps : List (Sc × List Nat)) :
+    (Poa.Model.history x steps).labels.length ≤ x.length + (steps.map fun s => s.2.length).sum :=
+  Poa.Model.history_node_count x hx steps
+
+/-- **the consensus of the model is non-empty and spelled by a path** — for every graph with at least one
+node, end points in range and no directed cycle, whatever the edge weights (model of the repaired
+`Aligner::consensus`, commit 8b80f4b: the unrepaired one indexed out of bounds on edgeless graphs).  In
+particular `consensus` never returns `none` (= never panics) on such a graph. -/
+theorem consensus_is_path (labels : List Nat) (es : Poa.Model.WEdges)
+    (hne : labels ≠ [])
+    (hwf : ∀ e ∈ es, e.1 < labels.length ∧ e.2.1 < labels.length)
+    (hac : ∀ v, ¬ Reach (plain es) v v) :
+    ∃ w, Poa.Model.consensus labels es = some w ∧ w ≠ [] ∧
+      ∃ p : List Nat, IsWalk (plain es) p ∧ (∀ v ∈ p, v < labels.length) ∧ p.map (fun v => labels.getD v 0) = w :=
+  Poa.Model.consensus_path labels es ⟨hne, hwf, hac⟩
+
+/-- … in particular after any history of the model -/
+theorem model_history_consensus_is_path (x : List Nat) (hx : x ≠ []) (steps : List (Sc × List Nat)) :
+    ∃ w, Poa.Model.consensus (Poa.Model.history x steps).labels (Poa.Model.history x steps).es = some w ∧ w ≠ [] ∧
+      Spelled (Poa.Model.history x steps).labels (plain (Poa.Model.history x steps).es) w :=
+  Poa.Model.consensus_path _ _ (Poa.Model.history_dag x hx steps)
+
+/-- **banded clause, for the model**: `global_banded` (mirror model `bandedScore`, which the driver compares
+with every score the real `global_banded` reports, any bandwidth) with default (`MIN_SCORE`) clip penalties
+reports the score of `global` as soon as the bandwidth is at least the query length — on every non-empty
+well-formed DAG, not only on linear graphs, and without needing `bandwidth ≥ #nodes` (the band is centred on
+a column `≤ |query|`).  Side conditions: `gap ≤ 0` (what `Scoring::new` asserts) and no path of gaps reaches
+down to `MIN_SCORE` (`MIN_SCORE < (#nodes + |query| + 1)·gap`), because `global_banded` starts its
+per-column maximum from a `MIN_SCORE` cell.  Proved row by row: every row of the banded table starts in
+column 0, covers all columns and holds the cells — scores and operations — of the global table. -/
+theorem model_banded_full_band_equals_global (sc : Sc) (labels : List Nat) (es : Poa.Model.WEdges)
+    (query : List Nat) (bw : Nat)
+    (hne : labels ≠ [])
+    (hwf : ∀ e ∈ es, e.1 < labels.length ∧ e.2.1 < labels.length)
+    (hac : ∀ v, ¬ Reach (plain es) v v)
+    (hbw : query.length ≤ bw) (hgap : sc.gap ≤ 0)
+    (hmin : Poa.Model.minScore < ((labels.length + query.length + 1 : Nat) : Int) * sc.gap) :
+    Poa.Model.bandedScore sc Poa.Model.minScore Poa.Model.minScore labels es query bw =
+      (Poa.Model.globalAlign sc labels es query).1 :=
+  Poa.Model.bandedScore_full sc labels es query bw ⟨hne, hwf, hac⟩ hbw hgap hmin
+
+/-- **score clause for the general DP of the model**: on the graph built from one non-empty sequence `x`
+(`chainG x` = `Poa::from_string`) the score `global` reports in the model — `topo`, the per-predecessor
+recurrence over the whole graph, Rust tie-breaks — is the Needleman–Wunsch optimum.  (`topo` of the chain is
+`0, 1, …`, each node's only predecessor is the one before it, so `dpRows` computes the rows of `chainRows`;
+then `chain_dp_is_optimum`.) -/
+theorem model_global_on_linear_graph_is_optimum (sc : Sc) (x q : List Nat) (hx : x ≠ []) :
+    (Poa.Model.globalAlign sc x (Poa.Model.chainG x).es q).1 = nwBest sc x q := by
+  rw [Poa.Model.chainG_es, Poa.Model.globalAlign_chain sc x q hx]
+  exact Poa.Model.chainScore_eq_nwBest sc x q
+
+/-- **banded clause on linear graphs, for the model**: with default clip penalties and a bandwidth of at least
+the query length the banded model reports the Needleman–Wunsch optimum (side conditions as in
+`model_banded_full_band_equals_global`) -/
+theorem model_banded_on_linear_graph_is_optimum (sc : Sc) (x q : List Nat) (bw : Nat) (hx : x ≠ [])
+    (hbw : q.length ≤ bw) (hgap : sc.gap ≤ 0)
+    (hmin : Poa.Model.minScore < ((x.length + q.length + 1 : Nat) : Int) * sc.gap) :
+    Poa.Model.bandedScore sc Poa.Model.minScore Poa.Model.minScore x (Poa.Model.chainG x).es q bw = nwBest sc x q := by
+  have hd := Poa.Model.chainG_dag x hx
+  rw [Poa.Model.bandedScore_full sc x (Poa.Model.chainG x).es q bw hd hbw hgap hmin]
+  exact model_global_on_linear_graph_is_optimum sc x q hx
+
+/-- **the faithful model of `Aligner::global`** (`custom` with the four clip penalties at `MIN_SCORE`, every
+`MIN_SCORE` start cell and clip candidate kept — the model whose score and operation list the driver compares
+with the real `global` on every step) **reports the score of the clip-free model** on every non-empty
+well-formed DAG, provided no score comes near `MIN_SCORE`: `gap ≤ 0`, substitution scores `≤ W` (`0 ≤ W`),
+`MIN_SCORE < (#nodes + |q| + 1)·gap − |q|·W`.  (Every clip candidate loses: prefix clips against the lower
+bound `(v+1+j)·gap` of a cell, suffix clips because `column maximum + MIN_SCORE ≤ |q|·W + MIN_SCORE`.) -/
+theorem model_faithful_global_equals_clipfree (sc : Sc) (labels : List Nat) (es : Poa.Model.WEdges)
+    (q : List Nat) (W : Int)
+    (hne : labels ≠ [])
+    (hwf : ∀ e ∈ es, e.1 < labels.length ∧ e.2.1 < labels.length)
+    (hac : ∀ v, ¬ Reach (plain es) v v)
+    (hgap : sc.gap ≤ 0) (hW : 0 ≤ W) (hw : ∀ a b, sc.w a b ≤ W)
+    (hmin : Poa.Model.minScore < ((labels.length + q.length + 1 : Nat) : Int) * sc.gap - (q.length : Int) * W) :
+    (Poa.Model.customAlign sc Poa.Model.minScore Poa.Model.minScore Poa.Model.minScore Poa.Model.minScore labels es q).1 =
+      (Poa.Model.globalAlign sc labels es q).1 :=
+  Poa.Model.customScore_minclips sc labels es q W ⟨hne, hwf, hac⟩ hgap hW hw hmin
+
+/-- … hence **the score clause for the faithful model**: on the graph built from one non-empty sequence the
+faithful `global` reports the Needleman–Wunsch optimum (same side conditions) -/
+theorem model_faithful_global_on_linear_graph_is_optimum (sc : Sc) (x q : List Nat) (W : Int) (hx : x ≠ [])
+    (hgap : sc.gap ≤ 0) (hW : 0 ≤ W) (hw : ∀ a b, sc.w a b ≤ W)
+    (hmin : Poa.Model.minScore < ((x.length + q.length + 1 : Nat) : Int) * sc.gap - (q.length : Int) * W) :
+    (Poa.Model.customAlign sc Poa.Model.minScore Poa.Model.minScore Poa.Model.minScore Poa.Model.minScore
+      x (Poa.Model.chainG x).es q).1 = nwBest sc x q := by
+  rw [Poa.Model.customScore_minclips sc x (Poa.Model.chainG x).es q W (Poa.Model.chainG_dag x hx) hgap hW hw hmin]
+  exact model_global_on_linear_graph_is_optimum sc x q hx
+
+/-- **every alignment mode keeps the graph a DAG** (DESIGN [C], full statement).  `stepAdd sc cl g mode q` is
+`add_to_graph()` after `global` / `semiglobal` / `local` / `custom` (configured clip penalties `cl`) /
+`global_banded(bw)` (any bandwidth, narrow bands with their out-of-band cells included) in the *faithful*
+models `customTable` / `bandedTable` (every `MIN_SCORE` start cell, prefix and suffix clip cells, the three
+out-of-band answers of `Traceback::get`; the driver compares their score and operation list with the real
+output on every step of every mode: 0 differences).  For every non-empty well-formed DAG, scoring, clip
+penalties, mode and query the result is a non-empty well-formed DAG.  Proof: both tables are *local*
+(`customTable_opsOK`, `bandedTable_opsOK`: a cell points into its own row, to the row of a predecessor, to
+row 0, down the first column, or — suffix clips — out of the last row, behind which nothing is named), so
+the traceback names nodes in strictly increasing topological rank (`traceF_bodyB`). -/
+theorem model_every_mode_add_preserves_acyclic (sc : Sc) (cl : Poa.Model.Clips) (g : Poa.Model.G)
+    (mode : Poa.Model.Mode) (q : List Nat)
+    (hne : g.labels ≠ [])
+    (hwf : ∀ e ∈ g.es, e.1 < g.labels.length ∧ e.2.1 < g.labels.length)
+    (hac : ∀ v, ¬ Reach (plain g.es) v v) :
+    (Poa.Model.stepAdd sc cl g mode q).labels ≠ [] ∧
+    (∀ e ∈ (Poa.Model.stepAdd sc cl g mode q).es,
+      e.1 < (Poa.Model.stepAdd sc cl g mode q).labels.length ∧
+      e.2.1 < (Poa.Model.stepAdd sc cl g mode q).labels.length) ∧
+    ∀ v, ¬ Reach (plain (Poa.Model.stepAdd sc cl g mode q).es) v v :=
+  let h := Poa.Model.stepAdd_dag sc cl g mode q ⟨hne, hwf, hac⟩
+  ⟨h.ne, h.wf, h.acyclic⟩
+
+/-- **"after any series of additions", every mode**: from the chain of a non-empty reference, any list of
+steps (scoring, configured clip penalties, mode, query): end points in range, no directed cycle -/
+theorem model_history_all_modes_acyclic (x : List Nat) (hx : x ≠ []) (steps : List Poa.Model.HStep) :
+    (∀ e ∈ (Poa.Model.historyM x steps).es,
+      e.1 < (Poa.Model.historyM x steps).labels.length ∧ e.2.1 < (Poa.Model.historyM x steps).labels.length) ∧
+    ∀ v, ¬ Reach (plain (Poa.Model.historyM x steps).es) v v :=
+  let h := Poa.Model.historyM_dag x hx steps
+  ⟨h.wf, h.acyclic⟩
+
+/-- … the graph only grows along such a history … -/
+theorem model_history_all_modes_only_grows (x : List Nat) (steps more : List Poa.Model.HStep) :
+    Extends (Poa.Model.historyM x steps).labels (Poa.Model.historyM x steps).es
+      (Poa.Model.historyM x (steps ++ more)).labels (Poa.Model.historyM x (steps ++ more)).es :=
+  (Poa.Model.historyM_grows x steps more).extends
+
+/-- … **node growth ≤ |query| per addition in every mode** — for every graph (no acyclicity needed), scoring,
+clip penalties, mode and query: the traceback over the table of `custom`/`global_banded` emits at most `|q|`
+operations that consume a query symbol (such an operation moves one column to the left, column 0 holds
+none, a `Yclip` never jumps to the right), and `add_alignment` creates at most one node per such operation -/
+theorem model_every_mode_node_growth (sc : Sc) (cl : Poa.Model.Clips) (g : Poa.Model.G) (mode : Poa.Model.Mode)
+    (q : List Nat) :
+    (Poa.Model.stepAdd sc cl g mode q).labels.length ≤ g.labels.length + q.length :=
+  Poa.Model.stepAdd_node_growth sc cl g mode q
+
+theorem model_history_all_modes_node_count (x : List Nat) (steps : List Poa.Model.HStep) :
+    (Poa.Model.historyM x steps).labels.length ≤ x.length + (steps.map fun s => s.2.2.2.length).sum :=
+  Poa.Model.historyM_node_count x steps
+
+/-- … and its consensus is always a non-empty word spelled by a path -/
+theorem model_history_all_modes_consensus_is_path (x : List Nat) (hx : x ≠ []) (steps : List Poa.Model.HStep) :
+    ∃ w, Poa.Model.consensus (Poa.Model.historyM x steps).labels (Poa.Model.historyM x steps).es = some w ∧ w ≠ [] ∧
+      Spelled (Poa.Model.historyM x steps).labels (plain (Poa.Model.historyM x steps).es) w :=
+  Poa.Model.consensus_path _ _ (Poa.Model.historyM_dag x hx steps)
+
+/-- the general lemma behind both: `add_alignment` along *any* operation list that names nodes in increasing
+rank (`bodyB`: each `Match(Some((_, p)))` lies above the rank bound of `prev`, with room for the nodes created
+in between; the inserted prefix `Ins(None)…` stays below the head) keeps the graph acyclic, `rk` being any rank
+function increasing along the old edges.  (The former `…_partial`: its hypothesis is now discharged for the
+operation lists of every mode of the model, see above; it is still what the driver's certificate
+`acyclicCert` evaluates on the operation lists of the *real* code.) -/
+theorem model_add_preserves_acyclic_of_ranked_ops (g : Poa.Model.G) (rk : Nat → Nat) (ops : List POp) (seq : List Nat)
     (hrk : ∀ e ∈ g.es, e.1 < g.labels.length ∧ e.2.1 < g.labels.length ∧ rk e.1 < rk e.2.1)
     (hhead : (Poa.Model.topo g.labels.length g.es).headD 0 < g.labels.length)
     (hbody : Poa.Model.bodyB rk g.labels.length ((Poa.Model.topo g.labels.length g.es).headD 0)
       (rk ((Poa.Model.topo g.labels.length g.es).headD 0)) false ops = true) :
     ∀ v, ¬ Reach (plain (Poa.Model.addAlignment g ops seq).es) v v :=
-  Poa.Model.addAlignment_acyclic_partial g rk ops seq hrk hhead hbody
+  Poa.Model.addAlignment_acyclic_of_bodyB g rk ops seq hrk hhead hbody
 
 /-- the executable certificate (`topo` position scaled by `|ops|+1` as rank function) implies that the
 model's updated graph has no cycle -/
@@ -172,6 +381,24 @@ example : Poa.Model.acyclicCert { labels := [65, 65, 65], es := [(0, 1, 1), (1, 
 -- naming nodes against the order is refused
 example : Poa.Model.acyclicCert { labels := [65, 65, 65], es := [(0, 1, 1), (1, 2, 1)] }
     [.m none, .m (some (1, 2)), .m (some (0, 1))] = false := by decide
+-- one history step on the chain ACG with the query ATG: a branch node is created, the result is a DAG
+example : (Poa.Model.history [65, 67, 71] [(exSc, [65, 84, 71])]).labels = [65, 67, 71, 84] := by decide
+example : plain (Poa.Model.history [65, 67, 71] [(exSc, [65, 84, 71])]).es = [(0, 1), (1, 2), (0, 3), (3, 2)] := by decide
+-- consensus of a bubble graph: the heavier branch; of a single node: that node (no panic any more)
+example : Poa.Model.consensus [65, 67, 71, 84] [(0, 1, 2), (1, 2, 2), (0, 3, 1), (3, 2, 1)] = some [65, 67, 71] := by decide
+example : Poa.Model.consensus [65] [] = some [65] := by decide
+example : (Poa.Model.history [65, 67, 71] [(exSc, [65, 84, 71]), (exSc, [65, 84, 71])]).labels.length ≤ 3 + (3 + 3) := by decide
+-- banded model: full band = global score; a band of width 1 on a query with 3 leading extra symbols loses
+example : Poa.Model.bandedScore exSc Poa.Model.minScore Poa.Model.minScore [65, 67, 71] [(0, 1, 1), (1, 2, 1)] [65, 84, 71] 3 = 1 := by decide
+example : (Poa.Model.globalAlign exSc [65, 67, 71] [(0, 1, 1), (1, 2, 1)] [65, 84, 71]).1 = 1 := by decide
+example : Poa.Model.minScore < ((3 + 3 + 1 : Nat) : Int) * exSc.gap := by decide
+-- faithful models: local alignment of TT against ACGTT clips the prefix; a narrow band gives a junk list; both additions keep a DAG
+example : (Poa.Model.customAlign exSc 0 0 0 0 [65, 67, 71, 84, 84] [(0, 1, 1), (1, 2, 1), (2, 3, 1), (3, 4, 1)] [84, 84]).1 = 2 := by decide
+example : (Poa.Model.historyM [65, 67, 71, 84, 84] [(exSc, ⟨0, 0, 0, 0⟩, .local, [84, 84]), (exSc, ⟨0, 0, 0, 0⟩, .banded 1, [71, 71, 71, 84])]).labels.length = 8 := by decide
+-- the side conditions of the faithful-global theorem hold for +1/−1/−1 and lengths 3, 3
+example : Poa.Model.minScore < ((3 + 3 + 1 : Nat) : Int) * exSc.gap - (3 : Int) * 1 := by decide
+example : (Poa.Model.customAlign exSc Poa.Model.minScore Poa.Model.minScore Poa.Model.minScore Poa.Model.minScore
+    [65, 67, 71] [(0, 1, 1), (1, 2, 1)] [65, 84, 71]).1 = 1 := by decide
 -- a DAG with a bubble is accepted, a 3-cycle is not
 example : isAcyclic 4 [(0, 1), (1, 2), (0, 3), (3, 2)] = true := by decide
 example : isAcyclic 3 [(0, 1), (1, 2), (2, 0)] = false := by decide
